@@ -1080,7 +1080,7 @@ Lemma C18_fill_plain_words_lemma : forall w ws, 0 < w -> forallb (plain_word w) 
     exists r, fill w (join [sp] ws) = Ok r /\ lines_le w r /\ words r = ws /\ clean_edges r.
 Proof.
   intros w ws Hw H. destruct (fill_guard_ok w _ (fill_guard_plain_words w ws Hw H)) as [r Hr].
-  exists r. split; [assumption|]. split; [now apply (fill_width w _ r)|]. split.
+  exists r. split; [assumption|]. split; [exact (fill_width w _ r Hr)|]. split.
   - rewrite (fill_words w _ r Hr). now apply (words_join_plain w).
-  - now apply (fill_edges w _ r).
+  - exact (fill_edges w _ r Hr).
 Qed.
